@@ -607,6 +607,15 @@ func hashStr(s string) uint64 {
 	return h
 }
 
+// panicky is a result type whose JSON decoder panics.
+type panicky struct{ V int }
+
+func (p *panicky) UnmarshalJSON(b []byte) error {
+	var m map[string]interface{}
+	_ = m["x"].(string) // panics: interface conversion on a nil interface
+	return nil
+}
+
 // ---------------- (c) hostile replies ----------------
 
 var hostileKinds = []string{"good", "codec0-body", "unknown-codec", "undecodable", "wrong-seq", "negative-seq", "dup-one-write", "dup-delayed", "truncated", "status", "oversize",
@@ -650,6 +659,9 @@ func runHostile(e *env, kind, resKind string, idx int) {
 		result = new([]byte)
 	case "pbgen":
 		result = new(secure.Encrypt)
+	case "panicky":
+		// a result type whose own decoder panics (a bug in application code reached by the reply's bytes)
+		result = new(panicky)
 	}
 	arg := interface{}(&tok.Arg{Tok: "t", Pay: "p"})
 	cod := byte(codec.ID_JSON)
@@ -1044,9 +1056,12 @@ func main() {
 		// (c)
 		for k := 0; k < nHostile; k++ {
 			for _, kind := range hostileKinds {
-				for _, rk := range []string{"struct", "bytes", "nil", "pbgen"} {
+				for _, rk := range []string{"struct", "bytes", "nil", "pbgen", "panicky"} {
 					if _, isPB := pbBodies[kind]; isPB != (rk == "pbgen") {
 						continue // the protobuf bodies go with the generated result type only (and that type with those bodies only)
+					}
+					if rk == "panicky" && kind != "good" && kind != "dup-one-write" && kind != "status" {
+						continue // the panicking decoder is reached by a decodable reply; a few kinds are enough
 					}
 					if mine() {
 						if p.Struct {
